@@ -6,17 +6,17 @@ import numpy as np
 from vlib import enc
 
 
-def _observe(cd):
+def _observe(cd, toff=0):
     o = {"exc": ""}
     try:
         o["observable"] = enc.ints(cd.observable())
         g = cd.grid.grid()
-        o["time"] = enc.ints(g["time"])
+        o["time"] = enc.ints(np.asarray(g["time"], dtype=float) - toff)
         o["lat"] = enc.ints(g["lat"])
         o["lon"] = enc.ints(g["lon"])
         w = cd.window()
-        o["window"] = [int(w[k]) for k in ("time_min", "time_max", "lat_min", "lat_max",
-                                            "lon_min", "lon_max")]
+        o["window"] = [int(w[k] - (toff if k.startswith("time") else 0))
+                       for k in ("time_min", "time_max", "lat_min", "lat_max", "lon_min", "lon_max")]
         o["phase_indices"] = enc.ints(cd.phase_indices())
         o["phase_mean"] = enc.arr(cd.phase_mean())
         o["anomaly"] = enc.arr(cd.anomaly())
@@ -33,24 +33,29 @@ def run_case(c):
     from pyunicorn.core import GeoGrid
     from pyunicorn.climate import ClimateData
     d = c["data"]
-    grid = GeoGrid(np.array(d["time"], dtype=float), np.array(d["lat"], dtype=float),
+    # every third behaviour is replayed with all time coordinates (samples and window bounds) translated by
+    # 2^21 - a record in "hours since ..." - and translated back in what is recorded: the window semantics
+    # do not depend on the origin of the time axis
+    import zlib
+    toff = 2097152.0 if zlib.crc32(c["case"].encode()) % 3 == 0 else 0.0
+    grid = GeoGrid(np.array(d["time"], dtype=float) + toff, np.array(d["lat"], dtype=float),
                    np.array(d["lon"], dtype=float), silence_level=3)
     obs, rep = enc.represent(d["obs"], c["case"])
     cd = ClimateData(obs, grid, d["cycle"], anomalies=bool(d["anom"]), silence_level=3)
-    events = [{"op": "construct"}, _observe(cd)]
+    events = [{"op": "construct"}, _observe(cd, toff)]
     for s in c["steps"]:
         if s["op"] == "set_window":
             w = s["w"]
-            cd.set_window({"time_min": float(w["tmin"]), "time_max": float(w["tmax"]),
+            cd.set_window({"time_min": float(w["tmin"]) + toff, "time_max": float(w["tmax"]) + toff,
                            "lat_min": float(w["latmin"]), "lat_max": float(w["latmax"]),
                            "lon_min": float(w["lonmin"]), "lon_max": float(w["lonmax"])})
         else:
             cd.set_global_window()
         events.append(s)
-        events.append(_observe(cd))
+        events.append(_observe(cd, toff))
     rec = dict(c)
     rec["events"] = events
-    rec["repr"] = rep
+    rec["repr"] = rep + (",time_offset" if toff else "")
     return rec
 
 
